@@ -2,12 +2,14 @@
 //! (new, From<Rep>, From<narrower>, inner(), + - *, unary -, comparisons, MIN/MAX/EQUILIBRIUM).
 //! Input line:  `<ty> ; op , op , ...`     ty = 0..7 = I11 I20 I24 I48 U11 U20 U24 U48
 //!   ops: profile | consts | srcs | new v | from v | widen k v | arith o a b | neg a | cmp a b
+//!        | grid o n a1..an b1..bm   (every pair (a_i, b_j), a outer: a hash of the `arith` observations;
+//!          with the command-line argument `full`, the observations themselves as flat (tag, value) pairs)
 //!        (o: 0 add, 1 sub, 2 mul)
 //!   or   `E <ty> <o> <a_lo> <a_hi>` : every pair (a, b), a in [a_lo, a_hi], b over the whole
 //!        range of the type, compared inside the harness with an independent i128 oracle.
 //! Output: observations joined by ';', each `tag payload...`
 //!   0 none/invalid operand, 1 Some v, 2 value, 3 profile, 4 comparisons, 5 consts, 6 sources,
-//!   7 no Neg impl, 8 panic code (1 = primitive overflow check, 4 = expect, 9 other), 9 exhaustive summary
+//!   10 grid hash + count, 11 grid observations, 7 no Neg impl, 8 panic code (1 = primitive overflow check, 4 = expect, 9 other), 9 exhaustive summary
 use dasp_sample::types::{i11, i20, i24, i48, u11, u20, u24, u48};
 use dasp_sample::types::{I11, I20, I24, I48, U11, U20, U24, U48};
 use dasp_verif_harness::*;
@@ -53,6 +55,11 @@ fn ord(o: Ordering) -> i64 {
 fn overflow_checks_on() -> bool {
     let x: i8 = std::hint::black_box(127);
     catch15(move || std::hint::black_box(x + std::hint::black_box(1))).is_err()
+}
+
+/// order-sensitive hash, the same function as `hstep` in Sample/TypesRun.v
+fn hstep(h: i128, x: i64) -> i128 {
+    (h * 1000003 + x as i128).rem_euclid(2305843009213693951)
 }
 
 type Widen = fn(i64) -> Option<i64>;
@@ -105,7 +112,7 @@ fn oracle(dbg: bool, min: i64, max: i64, o: i64, a: i64, b: i64) -> Option<i64> 
 macro_rules! run_ty {
     ($fname:ident, $m:ident, $T:ident, $Rep:ty, signed: $sg:expr, bits: $bits:expr,
      neg: $negf:expr, widen: [$($w:expr),*], srcs: [$($s:expr),*]) => {
-        fn $fname(ops: &[Vec<&str>]) -> Vec<String> {
+        fn $fname(ops: &[Vec<&str>], full: bool) -> Vec<String> {
             let rep = |v: i64| -> $Rep {
                 assert!((v as $Rep) as i64 == v, "harness: value is not a Rep value");
                 v as $Rep
@@ -148,6 +155,36 @@ macro_rules! run_ty {
                         })),
                         _ => obs(0, &[]),
                     },
+                    "grid" => {
+                        let n = a[1] as usize;
+                        let (xs, ys) = (&a[2..2 + n], &a[2 + n..]);
+                        let mut h: i128 = 7;
+                        let mut flat = Vec::new();
+                        for &x in xs {
+                            for &y in ys {
+                                let (t, v) = match ($T::new(rep(x)), $T::new(rep(y))) {
+                                    (Some(p), Some(q)) => match catch15(|| match a[0] {
+                                        0 => (p + q).inner() as i64,
+                                        1 => (p - q).inner() as i64,
+                                        2 => (p * q).inner() as i64,
+                                        _ => panic!("harness: unknown operator"),
+                                    }) {
+                                        Ok(w) => (2, w),
+                                        Err(c) => (8, c),
+                                    },
+                                    _ => (0, 0),
+                                };
+                                h = hstep(hstep(h, t), v);
+                                flat.push(t);
+                                flat.push(v);
+                            }
+                        }
+                        if full {
+                            obs(11, &flat)
+                        } else {
+                            obs(10, &[h as i64, (xs.len() * ys.len()) as i64])
+                        }
+                    }
                     "neg" => match negf {
                         None => obs(7, &[]),
                         Some(f) => match $T::new(rep(a[0])) {
@@ -242,6 +279,7 @@ exhaustive_ty!(exh_i11, i11, I11, i16);
 exhaustive_ty!(exh_u11, u11, U11, i16);
 
 fn main() {
+    let full = std::env::args().any(|a| a == "full");
     serve(|line| {
         let line = line.trim();
         if let Some(rest) = line.strip_prefix("E ") {
@@ -259,14 +297,14 @@ fn main() {
             .filter(|o| !o.is_empty())
             .collect();
         let out = match ty.trim().parse::<i64>().expect("harness: type index") {
-            0 => run_i11(&ops),
-            1 => run_i20(&ops),
-            2 => run_i24(&ops),
-            3 => run_i48(&ops),
-            4 => run_u11(&ops),
-            5 => run_u20(&ops),
-            6 => run_u24(&ops),
-            7 => run_u48(&ops),
+            0 => run_i11(&ops, full),
+            1 => run_i20(&ops, full),
+            2 => run_i24(&ops, full),
+            3 => run_i48(&ops, full),
+            4 => run_u11(&ops, full),
+            5 => run_u20(&ops, full),
+            6 => run_u24(&ops, full),
+            7 => run_u48(&ops, full),
             _ => panic!("harness: unknown type index"),
         };
         out.join(";")
